@@ -625,19 +625,27 @@ class ClientTls(Client):
         """
         try:
             self.cs.do_handshake()
-        except OSError as ex:
+        except OSError as ex:  # ssl.SSLError is a subtype of OSError
             if ex.errno in (ssl.SSL_ERROR_WANT_READ, ssl.SSL_ERROR_WANT_WRITE):
                 return False
-            elif ex.errno in (ssl.SSL_ERROR_EOF, ):
-                self.close()
-                raise   # should give up here nicely
-            else:
-                self.close()
-                raise
-        except OSError as ex:
             self.close()
-            if ex.errno in (errno.ECONNABORTED, ):
-                raise  # should give up here nicely
+            if (ex.errno in (ssl.SSL_ERROR_EOF, ) or
+                (not isinstance(ex, ssl.SSLError) and
+                 ex.errno in (errno.ECONNABORTED,
+                              errno.ECONNRESET,
+                              errno.EPIPE,
+                              errno.ENETRESET,
+                              errno.ENETUNREACH,
+                              errno.EHOSTUNREACH,
+                              errno.ENETDOWN,
+                              errno.EHOSTDOWN,
+                              errno.ETIMEDOUT,
+                              errno.ECONNREFUSED))):
+                # server end terminated or connection failed during handshake
+                # give up here nicely. Closed so next .connect starts over
+                logger.error("Aborted tls handshake of %s with %s.\n%s\n",
+                             self.ca, self.ha, ex)
+                return False
             raise
         except Exception as ex:
             self.close()
